@@ -62,6 +62,7 @@ func (s *defaultSender) updateWindow(add uint32) {
 		return
 	}
 	prevWindow := s.currentWindow.Add(add) - add
+	verifYield("sender.added")
 	if prevWindow == 0 {
 		select {
 		case s.windowUpdates <- struct{}{}:
@@ -81,9 +82,11 @@ func (s *defaultSender) send(data []byte) error {
 	first := true
 	for {
 		windowSz := s.currentWindow.Load()
+		verifYield("sender.loaded")
 
 		if windowSz == 0 {
 			// must wait for window size update before we can send more
+			verifYield("sender.wait")
 			select {
 			case <-s.windowUpdates:
 			case <-s.ctx.Done():
@@ -99,9 +102,11 @@ func (s *defaultSender) send(data []byte) error {
 		if chunkSz > chunkMax {
 			chunkSz = chunkMax
 		}
+		verifYield("sender.cas")
 		if !s.currentWindow.CompareAndSwap(windowSz, windowSz-chunkSz) {
 			continue
 		}
+		verifYield("sender.emit")
 
 		last := chunkSz == uint32(len(data))
 		if err := s.sendFunc(data[:chunkSz], size, first); err != nil {
